@@ -895,7 +895,21 @@ RELOAD:
 	vp("rd.sock", s, 0, 0)
 	if !s.redialForClient(oldConn) {
 		vp("rd.redialfailed", s, 0, 0)
-		s.changeStatus(statusPassiveClosed)
+		if s.redialForClientLocked == nil {
+			s.changeStatus(statusPassiveClosed)
+		} else {
+			// Another goroutine may have started a redial round of its own
+			// since this one failed: wait until it is over (the lock) and
+			// end the session only if it has not been re-established.
+			s.lock.Lock()
+			ended := s.tryChangeStatus(statusPassiveClosed, statusPassiveClosing, statusRedialFailed)
+			s.lock.Unlock()
+			if !ended {
+				return
+			}
+			// a round that was won and lost again has indexed the session
+			s.peer.sessHub.deleteSession(s)
+		}
 		vp("rd.closed", s, 0, 0)
 		s.notifyClosed()
 		s.peer.pluginContainer.postDisconnect(s)
